@@ -91,6 +91,13 @@ theorem union_disjoint (a b : PLoc) (ha : WFP a) (hb : WFP b) (hj : ¬ OneSidedP
 theorem union_oneSided_deviates :
     okUnion (.single (0, 5) .plus, []) (.single (3, 8) .plus, [(some "b", none, none)])
       (ans (unionP (.single (0, 5) .plus, []) (.single (3, 8) .plus, [(some "b", none, none)]))) = false := by
+  have hs : sortBlocks .plus [((0, 5) : Blk), (3, 8)] = [(0, 5), (3, 8)] :=
+    sortBlocks_of_fst_lt .plus (by simp)
+  have h : unionP (.single (0, 5) .plus, []) (.single (3, 8) .plus, [(some "b", none, none)])
+      = .ok (.compound ⟨[(0, 5), (3, 8)], .plus⟩, []) := by
+    simp [unionP, unionWithSingle, locStrand, unionSS, parentGate, parentId, pinfoId, Blk.len, mkCompound,
+      mkCompoundLoc, hs, blocksValid, withPar, bind, Except.bind, pure, Except.pure]
+  rw [h]
   decide
 
 /-- T3': `union_preserve_overlaps` keeps the multiset of covered positions of both operands together, drops empty
